@@ -75,6 +75,11 @@ type AbsfsNFS struct {
 	// UpdatePolicyOptions acquires Lock to drain in-flight requests and swap policy.
 	policyRWMu sync.RWMutex
 
+	// closed is set by Close and Unexport (under policyRWMu) and cleared by
+	// Export: requests that arrive after the clean-up are refused instead of
+	// allocating handles and filling caches on a released instance.
+	closed bool
+
 	// loggerMu protects structuredLogger writes from concurrent access.
 	loggerMu sync.RWMutex
 }
